@@ -105,10 +105,32 @@ package forwarding
 
 // --- The controllers register under their own protocol identifier.
 //@ func NewCCTPController(logger, msgServer) (result, err)
+//@   ensures[C11,C14,C17] err == nil ==> result != nil && cctpControllerWF(result)      // object invariant, see the end of this file
 //@   ensures[C05] err == nil ==> result != nil && result.BaseController != nil && result.BaseController.id == core.PROTOCOL_CCTP && result.handler != nil && result.handler.CCTPMsgServer != nil && result.logger != nil
 
 //@ func NewHyperlaneController(logger, handler) (result, err)
+//@   ensures[C11,C14,C17] err == nil ==> result != nil && hypControllerWF(result)      // object invariant, see the end of this file
 //@   ensures[C05] err == nil ==> result != nil && result.BaseController != nil && result.BaseController.id == core.PROTOCOL_HYPERLANE && result.handler != nil && result.logger != nil
 
 //@ func NewInternalController(logger, handler) (result, err)
+//@   ensures[C11,C14,C17] err == nil ==> result != nil && intControllerWF(result)      // object invariant, see the end of this file
 //@   ensures[C05] err == nil ==> result != nil && result.BaseController != nil && result.BaseController.id == core.PROTOCOL_INTERNAL && result.handler != nil && result.logger != nil
+
+// ---------------------------------------------------------------------------------------------
+// Object invariants: the injected dependencies are present. Proved on the constructors (which end in
+// Validate), protected by the scan typeinv#immutable (no allocation or field store outside them).
+// Panic freedom (C14, C11, C17) may rely on them for every non-nil controller.
+// ---------------------------------------------------------------------------------------------
+//@ macro cctpControllerWF(c) = c.logger != nil && c.BaseController != nil && c.handler != nil && c.handler.CCTPMsgServer != nil
+//@ typeinv CCTPController cctpControllerWF NewCCTPController
+
+//@ macro hypControllerWF(c) = c.logger != nil && c.BaseController != nil && c.handler != nil
+//@ typeinv HyperlaneController hypControllerWF NewHyperlaneController
+
+//@ macro intControllerWF(c) = c.logger != nil && c.BaseController != nil && c.handler != nil
+//@ typeinv InternalController intControllerWF NewInternalController
+
+//@ macro cctpHandlerWF(h) = h.CCTPMsgServer != nil
+//@ typeinv cctpHandler cctpHandlerWF NewCCTPHandler
+//@ func NewCCTPHandler(msgServer) (result, err)
+//@   ensures[C11,C14,C17] err == nil ==> result != nil && cctpHandlerWF(result)
